@@ -67,6 +67,15 @@ func (n *Net) SetUDPFilter(f func(from, to *net.UDPAddr, data []byte) UDPVerdict
 	n.mu.Unlock()
 }
 
+// SetUDPMangle installs an adversary that may rewrite datagrams in flight: it gets a private copy of every datagram that
+// survived the filter and the drawn loss and returns the bytes that travel instead (the same slice, edited or not; nil =
+// the datagram disappears). "udp-mangled" counts calls, not edits. It runs in the sender's task and must not block.
+func (n *Net) SetUDPMangle(f func(from, to *net.UDPAddr, data []byte) []byte) {
+	n.mu.Lock()
+	n.udpMangle = f
+	n.mu.Unlock()
+}
+
 // UDPSockets lists the open sockets' addresses (sorted).
 func (n *Net) UDPSockets() []string {
 	n.mu.Lock()
@@ -162,7 +171,7 @@ func (p *PacketConn) WriteTo(b []byte, addr net.Addr) (int, error) {
 	}
 	k := key(ip, to.Port)
 	n.mu.Lock()
-	cfg, filter, blocked := n.udpCfg, n.udpFilter, n.blocked
+	cfg, filter, blocked, mangle := n.udpCfg, n.udpFilter, n.blocked, n.udpMangle
 	n.mu.Unlock()
 	n.udpNote("udp-sent")
 	if blocked != nil && blocked(p.addr.IP.String(), k) {
@@ -194,6 +203,14 @@ func (p *PacketConn) WriteTo(b []byte, addr net.Addr) (int, error) {
 	}
 	data := append([]byte(nil), b...)
 	from := p.addr
+	if mangle != nil {
+		// the adversary on the wire: sees a copy of the datagram and returns what travels instead (nil = nothing)
+		if data = mangle(p.addr, to, data); data == nil {
+			n.udpNote("udp-filtered")
+			return len(b), nil
+		}
+		n.udpNote("udp-mangled")
+	}
 	for i := 0; i < copies; i++ {
 		var lat time.Duration
 		if len(cfg.Latencies) > 0 {
